@@ -20,6 +20,11 @@ Trace == ndJsonDeserialize("trace.ndjson")
 Reasons(e) ==
     IF e.ev = "CloseWaiter"
     THEN (IF e.fired /\ e.released /\ e.close_returned THEN {} ELSE {"CloseReleasesWaiters"})
+    ELSE IF e.ev = "CloseRelease"
+    \* a slot released AND the listener closed while its Accept was about to wait: the Accept returns and holds no
+    \* slot (ConnLimiter.tla: a closed listener's Accept takes none), so another listener serves a new connection
+    THEN (IF e.fired /\ e.released THEN {} ELSE {"CloseReleasesWaiters"})
+         \cup (IF e.other_served THEN {} ELSE {"ClosedAcceptHoldsNoSlot"})
     ELSE (IF e.max_active <= e.stop THEN {} ELSE {"SharedBound"})
          \cup (IF e.served_all THEN {} ELSE {"AllServed"})
 TraceInit == l = 1
